@@ -161,7 +161,8 @@ Lemma rtsp_feed_ok s m :
 Proof.
   destruct FX as (F1 & F2 & F3 & F4 & F5 & F6). intro Hinv. unfold rtsp_feed.
   destruct (mm_type m =? t_meta) eqn:Tm.
-  { destruct (rtsp_meta_ok s (mm_pay m)) as [s' [-> Hc]]. cbn [bind]. do 2 eexists; split; [reflexivity|].
+  { destruct (rs_done s); [do 2 eexists; split; [reflexivity|exact Hinv]|].
+    destruct (rtsp_meta_ok s (mm_pay m)) as [s' [-> Hc]]. cbn [bind]. do 2 eexists; split; [reflexivity|].
     unfold rtsp_inv. rewrite Hc. exact Hinv. }
   destruct (rtsp_gate_short m) eqn:Gate; [do 2 eexists; split; [reflexivity|exact Hinv]|].
   assert (Hg : gate_ok m).
